@@ -855,6 +855,199 @@ func (g *gen) typeSystemDef() *sn {
 	}
 }
 
+// ---- a definition without body directly followed by an anonymous query (mixed documents) ----
+
+var bodylessVariants = []string{"extend-schema", "type", "extend-type", "interface", "extend-interface", "enum", "extend-enum", "input", "extend-input",
+	"scalar", "extend-scalar", "union", "extend-union", "union-members", "directive", "schema-with-body", "type-with-body"}
+
+// bodylessDef writes a type-system definition or extension that ends without a brace-delimited
+// body (plus two control variants that end with one) and reports whether a '{' directly behind
+// it would be read as its body: then the following anonymous query needs the `query` keyword,
+// in the source and in every print.
+func (g *gen) bodylessDef() (n *sn, braceWouldBeBody bool) {
+	v := rapid.SampledFrom(bodylessVariants).Draw(g.t, "bodyless")
+	g.flag("adjacent:" + v)
+	ext := strings.HasPrefix(v, "extend-")
+	var desc *sn
+	if !ext && v != "schema-with-body" {
+		desc = g.description(4)
+	}
+	// parts writes `[implements …] [@dirs]`; an extension needs at least one of them
+	parts := func(n *sn, where string, canImplement bool) {
+		got := false
+		if canImplement && g.chance(3, "hasimplements") {
+			n.add(g.implementsList())
+			got = true
+		}
+		rate := 2
+		if ext && !got {
+			rate = 1
+		}
+		n.add(g.directives(rate, false, false, where)...)
+	}
+	switch v {
+	case "extend-schema":
+		g.w("extend")
+		g.w("schema")
+		return mk("extend-schema", "").add(g.directives(1, false, false, "schema")...), true
+	case "type", "extend-type", "interface", "extend-interface":
+		kind := strings.TrimPrefix(v, "extend-")
+		if ext {
+			g.w("extend")
+		}
+		g.w(kind)
+		name := g.name("typedefname", false)
+		g.w(name)
+		n = mk(v, name, desc)
+		parts(n, map[string]string{"type": "object", "interface": "interface"}[kind], true)
+		return n, true
+	case "enum", "extend-enum", "input", "extend-input":
+		kind := strings.TrimPrefix(v, "extend-")
+		if ext {
+			g.w("extend")
+		}
+		g.w(kind)
+		name := g.name(kind+"name", false)
+		g.w(name)
+		n = mk(v, name, desc)
+		parts(n, map[string]string{"enum": "enum", "input": "input-object"}[kind], false)
+		return n, true
+	case "scalar", "extend-scalar", "union", "extend-union":
+		kind := strings.TrimPrefix(v, "extend-")
+		if ext {
+			g.w("extend")
+		}
+		g.w(kind)
+		name := g.name(kind+"name", false)
+		g.w(name)
+		n = mk(v, name, desc)
+		parts(n, kind, false)
+		return n, false
+	case "union-members":
+		g.w("union")
+		name := g.name("unionname", false)
+		g.w(name)
+		n = mk("union", name, desc)
+		g.p("=")
+		k := rapid.IntRange(1, 2).Draw(g.t, "nmembers")
+		for i := 0; i < k; i++ {
+			if i > 0 {
+				g.p("|")
+			}
+			t := g.name("membername", false)
+			g.w(t)
+			n.add(mk("member", t))
+		}
+		return n, false
+	case "directive":
+		g.w("directive")
+		g.p("@")
+		name := g.name("dirdefname", false)
+		g.emit(tkWord, name)
+		g.w("on")
+		l := rapid.SampledFrom(dirLocations).Draw(g.t, "loc")
+		g.w(l)
+		return mk("directivedef", name, desc, mk("loc", l)), false
+	case "schema-with-body":
+		g.w("schema")
+		n = mk("schema", "").add(g.directives(2, false, false, "schema")...)
+		g.p("{")
+		g.w("query")
+		g.p(":")
+		t := g.name("roottype", false)
+		g.w(t)
+		g.p("}")
+		return n.add(mk("rootop", "query", mk("named", t))), false
+	default: // type-with-body
+		g.w("type")
+		name := g.name("typedefname", false)
+		g.w(name)
+		n = mk("type", name, desc)
+		n.add(g.fieldDefs()...)
+		return n, false
+	}
+}
+
+// lookalikeSelection writes a selection set whose tokens could also be read as the body the
+// preceding definition did not have: root operation types (`{ query: Query }`), field or
+// input field definitions (`{ a: Int b: String }`), enum values (`{ A B C }`).
+func (g *gen) lookalikeSelection() *sn {
+	set := mk("sel", "")
+	field := func(alias, name string) *sn {
+		f := mk("field", name)
+		if alias != "" {
+			g.w(alias)
+			g.p(":")
+			f.add(mk("alias", alias))
+		}
+		g.w(name)
+		set.add(f)
+		return f
+	}
+	g.p("{")
+	switch rapid.IntRange(0, 4).Draw(g.t, "lookalike") {
+	case 0:
+		g.flag("adjacent:lookalike-root-operation-types")
+		k := rapid.IntRange(1, 3).Draw(g.t, "nrootops")
+		for i := 0; i < k; i++ {
+			field([]string{"query", "mutation", "subscription"}[i], rapid.SampledFrom([]string{"Query", "Mutation", "Subscription", "Q", "query"}).Draw(g.t, "roottype"))
+		}
+	case 1:
+		g.flag("adjacent:lookalike-field-definitions")
+		k := rapid.IntRange(1, 3).Draw(g.t, "nfields")
+		for i := 0; i < k; i++ {
+			f := field(g.name("alias", true), rapid.SampledFrom([]string{"Int", "String", "ID", "T", "Boolean"}).Draw(g.t, "typelike"))
+			if g.chance(3, "fielddir") {
+				f.add(g.directives(1, false, true, "field")...)
+			}
+		}
+	case 2:
+		g.flag("adjacent:lookalike-enum-values")
+		k := rapid.IntRange(1, 3).Draw(g.t, "nvalues")
+		for i := 0; i < k; i++ {
+			f := field("", rapid.SampledFrom([]string{"A", "B", "NORTH", "RED", "on"}).Draw(g.t, "enumlike"))
+			if g.chance(3, "fielddir") {
+				f.add(g.directives(1, false, true, "field")...)
+			}
+		}
+	case 3:
+		g.flag("adjacent:lookalike-root-operation-types")
+		f := field("query", "Query")
+		f.add(g.selectionSet(2))
+	default:
+		g.flag("adjacent:lookalike-field-definitions")
+		f := field(g.name("alias", true), "Int")
+		f.add(g.arguments(1, false, true)...)
+	}
+	g.p("}")
+	return set
+}
+
+// adjacentPair writes a body-less definition directly followed by an anonymous query: with the
+// `query` keyword wherever a bare '{' would become the definition's body, as the shorthand
+// otherwise (half of the time).
+func (g *gen) adjacentPair(doc *sn) {
+	def, braceWouldBeBody := g.bodylessDef()
+	doc.add(def)
+	if braceWouldBeBody || g.chance(2, "keywordform") {
+		g.w("query")
+		g.flag("adjacent:query-keyword")
+		if braceWouldBeBody {
+			g.flag("adjacent:query-keyword-required")
+		}
+	} else {
+		g.flag("adjacent:shorthand")
+	}
+	var sel *sn
+	if g.chance(2, "lookalike") {
+		sel = g.lookalikeSelection()
+	} else {
+		sel = g.selectionSet(1)
+	}
+	doc.add(mk("op", "query", sel))
+	g.flag("adjacent:definition-then-anonymous-query")
+}
+
 // docCase is the replayable case of the docs part.
 type docCase struct {
 	Src  string   `json:"src"`
@@ -882,6 +1075,11 @@ func genDocWith(t *rapid.T, o genOpts, kind string) docCase {
 	n := rapid.IntRange(1, o.maxDefs).Draw(t, "ndefs")
 	lastExec := true // an anonymous operation may only follow an executable definition
 	for i := 0; i < n; i++ {
+		if kind == "mixed" && !pbt.IsKnown("C05-query-keyword-omitted") && g.chance(2, "adjacentpair") {
+			g.adjacentPair(doc)
+			lastExec = true
+			continue
+		}
 		exec := kind == "exec" || kind == "mixed" && g.chance(2, "mixedexec")
 		if exec {
 			if g.chance(3, "isfragment") {
@@ -904,7 +1102,7 @@ func genDocWith(t *rapid.T, o genOpts, kind string) docCase {
 }
 
 func genDoc(t *rapid.T) docCase {
-	kind := rapid.SampledFrom([]string{"exec", "exec", "exec", "schema", "schema", "schema", "mixed"}).Draw(t, "dockind")
+	kind := rapid.SampledFrom([]string{"exec", "exec", "exec", "schema", "schema", "schema", "mixed", "mixed"}).Draw(t, "dockind")
 	o := genOpts{maxSelDepth: 4, maxSel: 4, maxDefs: 4, wild: rapid.IntRange(0, 2).Draw(t, "wild") == 0}
 	return genDocWith(t, o, kind)
 }
